@@ -139,6 +139,15 @@ var hostilePaths = []string{"", "/", "//", "/.", "/..", "..", "../..", ".", "a",
 // what happened, for the counters: "load-error", "process-error", "clean".
 func Execute(texts []string, names []string, useFiles bool) (outcome string, errClasses []string) {
 	ms := yang.NewModules()
+	// the parse options are part of the input: derived from the texts, so that a case is
+	// reproducible from its description alone
+	h := 0
+	for _, t := range texts {
+		h += len(t)
+	}
+	ms.ParseOptions.StoreUses = h%2 == 0
+	ms.ParseOptions.IgnoreSubmoduleCircularDependencies = h%3 == 0
+	ms.ParseOptions.DeviateOptions.IgnoreDeviateNotSupported = h%5 == 0
 	loadedAny := false
 	for j, t := range texts {
 		if ss, err := yang.Parse(t, "generic"); err == nil {
@@ -183,6 +192,24 @@ func Execute(texts []string, names []string, useFiles bool) (outcome string, err
 				e.SingleDefaultValue()
 				e.GetWhenXPath()
 				e.IsDir()
+				e.IsContainer()
+				e.IsCase()
+				e.IsLeafList()
+				if e.Node != nil {
+					yang.NodePath(e.Node)
+					yang.FindNode(e.Node, "../"+e.Name)
+					yang.FindNode(e.Node, e.Name)
+					for _, hp := range hostilePaths[:12] {
+						yang.FindNode(e.Node, hp)
+					}
+					yang.ChildNode(e.Node, e.Name)
+					yang.Source(e.Node)
+					yang.MatchingEntryExtensions(e, "openconfig-extensions", "posix-pattern")
+				}
+				for _, u := range e.Uses {
+					_ = u.Grouping
+				}
+				yang.CamelCase(e.Name)
 				e.IsLeaf()
 				e.IsList()
 				e.IsChoice()
@@ -196,7 +223,9 @@ func Execute(texts []string, names []string, useFiles bool) (outcome string, err
 			}, 0)
 			var b bytes.Buffer
 			root.Print(&b)
+			yang.PrintNode(&b, m)
 			ms.FindModuleByNamespace("urn:nope")
+			yang.FindModuleByPrefix(m, m.GetPrefix())
 		}
 	}
 	if !loadedAny {
